@@ -64,8 +64,8 @@ func (t *Transcoder) ServeHTTP(writer http.ResponseWriter, request *http.Request
 	err := op.validate(t)
 
 	if t.unknownHandler != nil && errors.Is(err, errNotFound) {
-		op.request.Header = op.originalHeaders // restore headers, just in case initialization removed keys
 		if op.originalHeaders != nil {
+			op.request.Header = op.originalHeaders   // restore headers, just in case initialization removed keys
 			op.request.ContentLength = op.contentLen // ditto for the declared content length
 		}
 		t.unknownHandler.ServeHTTP(writer, op.request)
@@ -405,10 +405,24 @@ type operation struct {
 	serverRespNeedsPrep bool
 }
 
+// knowsPath reports whether the request's path names a configured method or
+// matches a configured REST route (under any HTTP method).
+func (t *Transcoder) knowsPath(req *http.Request) bool {
+	if t.methods[req.URL.Path] != nil {
+		return true
+	}
+	target, _, methods := t.restRoutes.match(req.URL.EscapedPath(), req.Method)
+	return target != nil || len(methods) > 0
+}
+
 func (o *operation) validate(transcoder *Transcoder) error {
 	// Identify the protocol.
 	clientProtoHandler, queryVars := classifyRequest(o.request)
 	if clientProtoHandler == nil {
+		if !transcoder.knowsPath(o.request) {
+			// Whatever this request is, it is not for any configured method.
+			return errNotFound
+		}
 		return newHTTPError(http.StatusUnsupportedMediaType, "could not classify protocol")
 	}
 	o.client.protocol = clientProtoHandler
